@@ -6,8 +6,7 @@ subclasses of the library classes whose metaclass `__call__` records every const
 trees / object indices, outcome: the index of the object or the exception kind) and whose `__setattr__` records the assignments `.sequence = …` /
 `.rate_constant = …`.  That table is the object world of the translated function (driver op `pyreadline.run`, lean/DsdVerif/DriverReadLine.lean): it
 must make the same requests in the same order with the same arguments, and return the same object / the statement itself / the same exception
-(stream `read_pil_line.source-derived`).  Statements of the two branches that are raising stubs in the translation (`strand-complex`,
-`kernel-complex`) are executed (later statements need their objects) but not compared (`pyreadline:stub_branch`).  Sometimes one slot is `None`.
+(stream `read_pil_line.source-derived`).  Statements of the branch that is a raising stub in the translation (`kernel-complex`) are executed (later statements need their objects) but not compared (`pyreadline:stub_branch`).  Sometimes one slot is `None`.
 """
 import os
 import random
@@ -15,7 +14,7 @@ from .. import core, sysgen
 from .pyreaderfn_stream import hx, enc_tree, to_lists
 
 STREAM = 'read_pil_line.source-derived'
-STUBS = ('strand-complex', 'kernel-complex')
+STUBS = ('kernel-complex',)
 SLOTS = ['Domain', 'Strand', 'Complex', 'Macrostate', 'Reaction']
 
 
@@ -68,6 +67,10 @@ class Recorder:
             return 'D %s %s' % (self.tree(arg(0, 'name')), '-' if n is None else n)
         if kind == 'S':
             return 'S %s %s' % (self.hs(arg(0, 'sequence')), self.tree(arg(1, 'name')))
+        if kind == 'C' and arg(1, 'structure') is not None:      # Complex(sequence, list(structure), name = n)
+            seq = list(arg(0, 'sequence') or [])
+            items = ','.join('p' if isinstance(x, str) else str(self.ident(x)) for x in seq) if seq else 'e'
+            return 'X %s [%s ] %s' % (items, ''.join(' ' + self.tree(c) for c in arg(1, 'structure')), self.tree(arg(2, 'name')))
         if kind == 'C':
             return 'C %s %s' % (self.hs(arg(0, 'sequence')), self.tree(arg(2, 'name')))
         if kind == 'M':
@@ -109,9 +112,18 @@ def make_proxies(bc, rec):
             rec.table.append('%s=>ok 0' % sig)
             return
         super(type(self), self).__setattr__(k, v)
+    def seq_get(self):
+        # `x.sequence` of a strand object (an iterator over its domains): recorded when `read_pil_line` itself reads it
+        v = list(bc.StrandS.sequence.fget(self))
+        if rec.depth == 0:
+            rec.table.append('s %d=>okl %s' % (rec.ident(self), ','.join(str(rec.ident(d)) for d in v)))
+        return iter(v)
     out = []
     for kind, base in zip('DSCMR', (bc.DomainS, bc.StrandS, bc.ComplexS, bc.MacrostateS, bc.ReactionS)):
-        out.append(RecMeta('Rl' + base.__name__, (base,), {'_rl_kind': kind, '__setattr__': setattr_}))
+        d = {'_rl_kind': kind, '__setattr__': setattr_}
+        if kind == 'S':
+            d['sequence'] = property(seq_get)
+        out.append(RecMeta('Rl' + base.__name__, (base,), d))
     return out
 
 
